@@ -403,3 +403,29 @@ Example C12_gen_example :
 Proof. vm_compute. first [exact I | split; reflexivity]. Qed.
 
 End GenAgreeMeasures_C12.
+
+(* ---- WIRING-APPENDIX:BEGIN (generated by tools/gen_wiring_props.py; do not edit) ---- *)
+From CC Require Proofs.GenAgreeWiring_C12.
+Section Wiring_C12.
+Import Coq.Lists.List Coq.ZArith.ZArith Coq.Strings.String CC.Base.WiringExp CC.Gen.WiringSrc.
+Import ListNotations.
+Local Open Scope string_scope.
+
+Theorem C12_wiring_Slice_pvals :
+  wsrc_Slice_pvals = Some (w_matrix_of "pvalues").
+Proof. exact Proofs.GenAgreeWiring_C12.gen_wiring_Slice_pvals. Qed.
+Print Assumptions C12_wiring_Slice_pvals.
+
+Theorem C12_wiring_Slice_residual_test_stats :
+  wsrc_Slice_residual_test_stats = Some (WCall (WAttr (WGlobal "np") "stack") [WList [WSelf "pvals";
+      WSelf "zscores"]] []).
+Proof. exact Proofs.GenAgreeWiring_C12.gen_wiring_Slice_residual_test_stats. Qed.
+Print Assumptions C12_wiring_Slice_residual_test_stats.
+
+Theorem C12_wiring_Slice_zscores :
+  wsrc_Slice_zscores = Some (w_matrix_of "zscores").
+Proof. exact Proofs.GenAgreeWiring_C12.gen_wiring_Slice_zscores. Qed.
+Print Assumptions C12_wiring_Slice_zscores.
+
+End Wiring_C12.
+(* ---- WIRING-APPENDIX:END ---- *)
